@@ -83,6 +83,8 @@ def aeq(spec, ty, modname, a, b, cfg=None, path=''):
     if k == 'NULL':
         return None if (a is None and b is None) else bad()
     if k == 'ENUMERATED':
+        if a is None and b is None:
+            return None         # unknown extension item reported as absent (C07 projection)
         if cfg.numeric_enums:
             ok = isinstance(a, int) and isinstance(b, int) and a == b
         else:
